@@ -35,7 +35,7 @@ TECHNIQUE = ('property-based differential testing (Hypothesis): one generated mo
              'text, and by WNTRSimulator; results compared on the report grid relative to the scale of each step')
 RULE = ('Generated network specs of vlib.netgen restricted to the common feature set (2-8 junctions, thorough to 16; '
         'loops, parallel links, 1-3 sources, cylindrical and volume-curve tanks, H-W pipes, CV pipes, initially closed '
-        'pipes, 1-/2-/3-point head pumps, power pumps, PRV/PSV/FCV/TCV in every initial status, a TCV directly at a tank in one case in four with a tank, multi-category demands, '
+        'pipes, 1-/2-/3-point head pumps, power pumps, PRV/PSV/FCV/TCV in every initial status, a TCV directly at a tank in one case in four with a tank, a second active TCV parallel to an active TCV in one case in three with one, multi-category demands, '
         'demand and reservoir-head patterns, pattern start, start clock time, demand multiplier, DD and PDD) plus 0-3 '
         'controlled links, each driven by exactly one of: simple time controls, simple clock-time controls, a pair of '
         'tank-level controls, rules on SYSTEM TIME / CLOCKTIME, rules on TANK LEVEL (with ELSE, AND/OR, priorities). '
@@ -346,6 +346,14 @@ def _case(draw, tier):
                                   'diam': p['diam'], 'minor': draw(st.sampled_from([0.0, 0.0, 1.0])),
                                   'setting': draw(st.sampled_from([1.0, 5.0, 50.0, 500.0])),
                                   'status': draw(st.sampled_from(['ACTIVE', 'ACTIVE', 'ACTIVE', 'OPEN']))})
+    tcvs = [v for v in net['valves'] if v['type'] == 'TCV' and v['status'] == 'ACTIVE']
+    if tcvs and draw(st.integers(0, 2)) == 0:
+        # a throttled bypass: a second active TCV between the same two nodes (either orientation); no link of the
+        # pair is 'open', both regulate
+        v = draw(st.sampled_from(tcvs))
+        a, b = (v['a'], v['b']) if draw(st.booleans()) else (v['b'], v['a'])
+        net['valves'].append({'name': v['name'] + 'B', 'a': a, 'b': b, 'type': 'TCV', 'diam': v['diam'], 'minor': 0.0,
+                              'setting': draw(st.sampled_from([1.0, 5.0, 50.0])), 'status': 'ACTIVE'})
     fam = draw(st.sampled_from(['US', 'metric']))
     o = net['opts']
     ex_pre = []
